@@ -69,6 +69,7 @@ const OTHER: &[(&str, &str)] = &[
     ("expect", "100-continue"),
 ];
 
+#[derive(Clone)]
 struct Cfg {
     chunk: usize,
     level: u32,
@@ -513,19 +514,50 @@ pub fn run(ctx: &mut Ctx) -> Result<RunOut, Violation> {
         let warm = Cfg { chunk: 16, level: 6, earlier_levels: Vec::new(), earlier_chunks: Vec::new(), ae: 9, ae_text: None, ae_second_line: None, ae_present: true, method: "GET", other: 0, version: 0, as_parts: false, payload: 0, seed: 0 };
         let _ = catch(|| drop(build(&warm)));
     }
+    let cfg = gen_cfg(&mut ctx.tape, focus);
     if ctx.tape.chance(1, 2) {
-        let pre = gen_cfg(&mut ctx.tape, "C17");
+        // The earlier response has a small history of its own, and half of the time the very
+        // configuration of the response under test (whatever a change may pool or memoise per
+        // level, chunk size or negotiation is then shared). It may end like any response can:
+        // writer first (clean), client gone first (writes and the finishing flush fail), abort.
+        let t = &mut ctx.tape;
+        let pre = if t.chance(1, 2) { cfg.clone() } else { gen_cfg(t, "C17") };
+        let n_writes = t.draw(4);
+        let sizes: Vec<usize> = (0..n_writes).map(|_| [1usize, 31, pre.chunk, 3 * pre.chunk + 1, 5000][t.draw(5) as usize].min(70_000)).collect();
+        let flush_mid = t.chance(1, 2);
+        let ending = t.draw(4); // 0,1 = clean; 2 = body dropped first; 3 = abort
         let _ = catch(|| {
             let (resp, w, _) = build(&pre);
+            let mut resp = Some(resp);
             if let Some(mut w) = w {
-                let _ = w.write_all(b"earlier response on this thread");
-                drop(w);
+                for (i, n) in sizes.iter().enumerate() {
+                    let buf: Vec<u8> = (0..*n as u64).map(|p| payload_byte(0, pre.seed ^ 0x9E, p + i as u64 * 7)).collect();
+                    let _ = w.write_all(&buf);
+                    if flush_mid && i == 0 {
+                        let _ = w.flush();
+                    }
+                }
+                match ending {
+                    2 => {
+                        drop(resp.take());
+                        let _ = w.write_all(b"written after the client went away");
+                        let _ = w.flush();
+                        drop(w);
+                    }
+                    3 => {
+                        w.abort(SimError::Injected(3));
+                        drop(w);
+                    }
+                    _ => drop(w),
+                }
             }
             drop(resp);
         });
         ctx.stats.bump("prelude_builds");
+        if ending >= 2 {
+            ctx.stats.bump("prelude_responses_ending_in_a_fault");
+        }
     }
-    let cfg = gen_cfg(&mut ctx.tape, focus);
     http_serve::verif::reset_chunker_bytes();
     let built = catch(|| build(&cfg));
     let (resp, w, expect_gzip) = match built {
